@@ -246,7 +246,7 @@ def annotate_gs(events):
     for i, ev in enumerate(events, 1):
         if ev.get("e") not in GS:
             continue
-        for k in ("gprev", "sprev", "s192", "fprev", "fresh"):
+        for k in ("gprev", "sprev", "s192", "fprev", "fresh", "nprev"):
             ev.setdefault(k, 0)
         key = (tuple(ev["prefix"]), ev["prefixnull"], tuple(ev["cd"]), tuple(ev["rb"]), ev["rbnull"], ev["nrbytes"])
         if ev["osize"] >= 192:
